@@ -86,6 +86,10 @@ pub struct HistCfg {
     pub reload_every: usize,
     /// stop at the first violation (normal) or continue (only for measuring)
     pub stop_at_first: bool,
+    /// collect the lock-order edges of every call (C15)
+    pub harvest_edges: bool,
+    /// fault enumeration: only execute (do not observe or check) the scripted operations before this index
+    pub check_from: usize,
 }
 
 #[derive(Clone, Debug, Default)]
@@ -113,6 +117,8 @@ pub struct HistResult {
     pub err_kinds: BTreeMap<String, u64>,
     pub max_nodes_seen: usize,
     pub probes: BTreeMap<String, u64>,
+    /// lock-order edges (nested blocking acquisitions) seen, as behavioural signatures with their number of occurrences
+    pub edges: BTreeMap<String, u64>,
 }
 
 fn fault_name(g: &Ghost, fired: u64) -> &'static str {
@@ -185,6 +191,12 @@ pub fn relation(view: &View, world: &World, op: &Op, detached_by: &HashMap<H, K>
         Recv::Model => {
             let mi = world.model(op.a).and_then(|m| view.models.iter().position(|(_, ms)| ms.model == m));
             let mut r = if mi == Some(0) { "m=primary".to_string() } else { "m=other".to_string() };
+            if let Some(mi) = mi {
+                // a named kind of element without SHORT-NAME (only the editing API can produce that)
+                if view.models[mi].1.nodes.iter().any(|n| !n.identifiable && n.e.element_type().is_named() && n.parent.is_some()) {
+                    r.push_str(",has-unnamed");
+                }
+            }
             if op.k.recv_b() == Recv::File {
                 r.push(',');
                 r.push_str(&file_state(op.b, mi));
@@ -236,6 +248,24 @@ pub fn relation(view: &View, world: &World, op: &Op, detached_by: &HashMap<H, K>
     if op.a == op.b {
         return format!("{a_state},b=a");
     }
+    let b_kind = match pb {
+        Place::Live(mb, ib) if matches!(op.k, K::ECopy | K::ECopyAt | K::EMove | K::EMoveAt) => {
+            let n = &view.models[mb].1.nodes[ib];
+            if n.identifiable {
+                ",b-ident"
+            } else if view.models[mb].1.subtree_range(ib).any(|j| view.models[mb].1.nodes[j].identifiable) {
+                ",b-anon-with-idents"
+            } else {
+                ",b-anon"
+            }
+        }
+        _ => "",
+    };
+    let r = relation_ab(view, world, op, pa, pb, &a_state, &stale);
+    format!("{r}{b_kind}")
+}
+
+fn relation_ab(view: &View, _world: &World, op: &Op, pa: Place, pb: Place, a_state: &str, stale: &dyn Fn(H) -> String) -> String {
     match (pa, pb) {
         (Place::Live(ma, ia), Place::Live(mb, ib)) => {
             if ma != mb {
@@ -256,7 +286,7 @@ pub fn relation(view: &View, world: &World, op: &Op, detached_by: &HashMap<H, K>
             }
         }
         (_, Place::Detached) => format!("{a_state},b={}", stale(op.b)),
-        (Place::Detached, _) => a_state,
+        (Place::Detached, _) => a_state.to_string(),
         _ => "unknown".to_string(),
     }
 }
@@ -307,7 +337,7 @@ struct PreCapture {
     dup_clean: bool,
 }
 
-fn capture_pre(view: &View, world: &World, op: &Op, sel: &PropSel) -> PreCapture {
+fn capture_pre(view: &View, world: &World, op: &Op, _sel: &PropSel) -> PreCapture {
     let mut pc = PreCapture {
         refs: Vec::new(),
         moved: Vec::new(),
@@ -327,7 +357,7 @@ fn capture_pre(view: &View, world: &World, op: &Op, sel: &PropSel) -> PreCapture
         K::EMove | K::EMoveAt => Some(op.b),
         _ => None,
     };
-    if sel.c06 {
+    {
         if let Some(sh) = subject {
             if let Place::Live(mi, ni) = place_of(view, world, sh) {
                 let ms = &view.models[mi].1;
@@ -351,7 +381,7 @@ fn capture_pre(view: &View, world: &World, op: &Op, sel: &PropSel) -> PreCapture
             }
         }
     }
-    if sel.c13 && matches!(op.k, K::ECopy | K::ECopyAt) {
+    if matches!(op.k, K::ECopy | K::ECopyAt) {
         if let (Place::Live(smi, sni), Place::Live(dmi, dni)) = (place_of(view, world, op.b), place_of(view, world, op.a)) {
             let ms = &view.models[smi].1;
             pc.src_text = Some(ms.subtree_text(sni, false));
@@ -368,7 +398,7 @@ fn capture_pre(view: &View, world: &World, op: &Op, sel: &PropSel) -> PreCapture
             pc.same_version = sv.is_some() && sv == dv;
         }
     }
-    if sel.c13 && op.k == K::MDuplicate {
+    if op.k == K::MDuplicate {
         if let Some(m) = world.model(op.a) {
             // the text comparison presupposes a model whose content is permitted in the (single) version of its files
             let vers: Vec<_> = m.files().map(|f| f.version()).collect();
@@ -389,7 +419,7 @@ fn capture_pre(view: &View, world: &World, op: &Op, sel: &PropSel) -> PreCapture
             pc.dup_file_texts = v;
         }
     }
-    if sel.c10 && op.k == K::MRemoveFile {
+    if op.k == K::MRemoveFile {
         if let (Some(m), Some(f)) = (world.model(op.a), world.file(op.b)) {
             if let Some((_, ms)) = view.models.iter().find(|(_, ms)| ms.model == m) {
                 if let Some(fi) = ms.files.iter().position(|x| x.f == f) {
@@ -497,9 +527,7 @@ fn post_checks(
     let sel = &cfg.props;
     let kn = format!("{}|{rel}|{}", op.k.name(), outcome_of(ret));
     let mut push = |prop: &str, sig: String, detail: String| {
-        if sel.wants(prop) {
-            out.push(Violation { prop: prop.to_string(), sig, detail, at: label });
-        }
+        out.push(Violation { prop: prop.to_string(), sig, detail, at: label });
     };
     let pre_canon = pre.canon();
     let post_canon = post.canon();
@@ -588,7 +616,7 @@ fn post_checks(
     let ok = !ret.is_err() && ret.panic.is_none() && !ret.aborted && !ret.skipped;
 
     // ---- C06: references follow rename / move
-    if sel.c06 && ok && matches!(op.k, K::ESetItemName | K::EMove | K::EMoveAt) && !pc.refs.is_empty() {
+    if ok && matches!(op.k, K::ESetItemName | K::EMove | K::EMoveAt) && !pc.refs.is_empty() {
         let subject = if op.k == K::ESetItemName { op.a } else { op.b };
         if let Place::Live(dmi, _) = place_of(post, world, subject) {
             let dst = &post.models[dmi].1;
@@ -632,7 +660,7 @@ fn post_checks(
     }
 
     // ---- C13: deep copy
-    if sel.c13 && ok && matches!(op.k, K::ECopy | K::ECopyAt) {
+    if ok && matches!(op.k, K::ECopy | K::ECopyAt) {
         if let (Some(src_text), Some(copy)) = (&pc.src_text, ret.first_elem()) {
             // source unchanged
             if let Place::Live(smi, sni) = place_of(post, world, op.b) {
@@ -686,7 +714,7 @@ fn post_checks(
             }
         }
     }
-    if sel.c13 && ok && op.k == K::MDuplicate && pc.dup_clean {
+    if ok && op.k == K::MDuplicate && pc.dup_clean {
         if let Some(dm) = ret.first_model() {
             let mut v: Vec<(String, String)> = dm.serialize_files().into_iter().map(|(p, s)| (p.to_string_lossy().to_string(), s)).collect();
             v.sort();
@@ -711,7 +739,7 @@ fn post_checks(
     }
 
     // ---- C10: remove_file post-condition
-    if sel.c10 && op.k == K::MRemoveFile && ret.panic.is_none() && !ret.aborted {
+    if op.k == K::MRemoveFile && ret.panic.is_none() && !ret.aborted {
         if let Some(expect) = &pc.expect_tree_after_remove {
             if let Some(m) = world.model(op.a) {
                 if let Some((_, ms)) = post.models.iter().find(|(_, ms)| ms.model == m) {
@@ -770,26 +798,17 @@ fn same_document(a: &str, b: &str) -> bool {
     }
 }
 
-/// describe the lock a ghost fault refused, relative to the operands of the operation (behavioural: no code positions)
-pub fn ghost_sig(view: &View, world: &World, op: &Op, req: &autosar_data::verif::LockRequest) -> String {
-    use autosar_data::verif::{LockClass, LockKind, LockMode};
-    let mode = match req.mode {
-        LockMode::Read => "read",
-        LockMode::Write => "write",
-    };
-    let kind = match req.kind {
-        LockKind::Try => "try",
-        LockKind::Timed(_) => "timed",
-        LockKind::Blocking => "blocking",
-    };
-    let target = match req.class {
+/// describe a lock relative to the operands of an operation (behavioural: no code positions, no names)
+pub fn lock_target(view: &View, world: &World, op: &Op, id: u64, class: autosar_data::verif::LockClass) -> String {
+    use autosar_data::verif::LockClass;
+    match class {
         LockClass::Model => "model".to_string(),
         LockClass::File => "file".to_string(),
         LockClass::Other => "other".to_string(),
         LockClass::Element => {
-            let found = world.elems_in_order().into_iter().find(|(_, e)| e.verif_lock_id() == req.id);
+            let found = world.elems_in_order().into_iter().find(|(_, e)| e.verif_lock_id() == id);
             match found {
-                None => "element(unknown)".to_string(),
+                None => "element(new)".to_string(),
                 Some((_, e)) => {
                     let mut loc: Option<(usize, usize)> = None;
                     for (mi, (_, ms)) in view.models.iter().enumerate() {
@@ -837,7 +856,22 @@ pub fn ghost_sig(view: &View, world: &World, op: &Op, req: &autosar_data::verif:
                 }
             }
         }
+    }
+}
+
+/// describe the lock a ghost fault refused, relative to the operands of the operation
+pub fn ghost_sig(view: &View, world: &World, op: &Op, req: &autosar_data::verif::LockRequest) -> String {
+    use autosar_data::verif::{LockKind, LockMode};
+    let mode = match req.mode {
+        LockMode::Read => "read",
+        LockMode::Write => "write",
     };
+    let kind = match req.kind {
+        LockKind::Try => "try",
+        LockKind::Timed(_) => "timed",
+        LockKind::Blocking => "blocking",
+    };
+    let target = lock_target(view, world, op, req.id, req.class);
     format!("{kind}-{mode}:{target}")
 }
 
@@ -861,6 +895,7 @@ pub fn run_history(cfg: &HistCfg) -> HistResult {
     rc.ghost = cfg.ghost.clone();
     rc.keep_trace = cfg.keep_trace;
     eng.begin_run(rc);
+    eng.with_state(|st| st.harvest_nested = cfg.harvest_edges);
     eng.enter(0);
     let world = World::new();
     let mut pre = passthrough(|| View::build(&world));
@@ -881,19 +916,43 @@ pub fn run_history(cfg: &HistCfg) -> HistResult {
                         let mh = world.models_in_order()[0].0;
                         Op::new(K::MCreateFile, mh).name(rng.pick(crate::gen::VERSIONS)).s("f0.arxml")
                     } else {
-                        let mut g = Gen { rng: &mut rng, world: &world, view: &pre, prof: &cfg.profile, max_nodes: cfg.max_nodes };
+                        let mut g = Gen { rng: &mut rng, world: &world, view: &pre, prof: &cfg.profile, max_nodes: cfg.max_nodes, focus: None };
                         g.gen_op()
                     }
                 });
                 (i as u32, op)
             }
         };
+        if i < cfg.check_from {
+            let ret = exec(&world, label, &op);
+            passthrough(|| {
+                world.discover(label);
+                if i + 1 == cfg.check_from {
+                    pre = View::build(&world);
+                }
+            });
+            res.ops.push(OpRecord { label, op: Some(op.clone()), ret: String::new(), try_timed: 0, ghost_fired: 0 });
+            if ret.aborted || eng.aborting() {
+                break;
+            }
+            continue;
+        }
         let rel = passthrough(|| relation(&pre, &world, &op, &detached_by));
         let pc = passthrough(|| capture_pre(&pre, &world, &op, &cfg.props));
         let (tt0, gf0) = eng.with_state(|st| (st.counters.try_timed, st.counters.ghost_fired));
         let ret = exec(&world, label, &op);
         let (tt1, gf1) = eng.with_state(|st| (st.counters.try_timed, st.counters.ghost_fired));
         let fault = fault_name(&cfg.ghost, gf1 - gf0);
+        if cfg.harvest_edges {
+            let nested = eng.with_state(|st| std::mem::take(&mut st.nested));
+            passthrough(|| {
+                for (_, h, r) in &nested {
+                    let dir = crate::conc::direction(&pre, &world, (h.lock, h.class), (r.id, r.class));
+                    let e = format!("{}: {:?}-{} -> {:?}-{} [{}]", op.k.name(), h.class, crate::conc::mode_s(h.mode), r.class, crate::conc::mode_s(r.mode), dir);
+                    *res.edges.entry(e).or_default() += 1;
+                }
+            });
+        }
         if gf1 > gf0 && run_ghost.is_none() {
             let req = eng.with_state(|st| st.ghost_fired_req.first().copied());
             if let Some(req) = req {
@@ -945,7 +1004,7 @@ pub fn run_history(cfg: &HistCfg) -> HistResult {
                         held.map(|h| h.mode),
                         thread.wanted.mode
                     );
-                    if cfg.props.c12 {
+                    {
                         viols.push(Violation {
                             prop: "C12".into(),
                             sig,
@@ -1007,9 +1066,9 @@ pub fn run_history(cfg: &HistCfg) -> HistResult {
                 post_checks(cfg, &pre, &post, &world, label, &op, &ret, &pc, fault, &rel, &mut viols);
                 // ---- state invariants
                 let sel = &cfg.props;
-                if sel.c03 || sel.c04 || sel.c05 || sel.c10 {
+                {
                     let reload = sel.c10 && ((cfg.reload_every > 0 && i % cfg.reload_every == cfg.reload_every - 1) || i + 1 == n_ops);
-                    let o = CheckOpts { check_c03: sel.c03, check_c04: sel.c04, check_c05: sel.c05, check_c10: sel.c10, c10_reload: reload, dfs_sample: 7 };
+                    let o = CheckOpts { check_c03: true, check_c04: true, check_c05: true, check_c10: true, c10_reload: reload, dfs_sample: if sel.c03 { 7 } else { 0 } };
                     for (_, ms) in &post.models {
                         for v in inv::check(ms, &ms.model, &o) {
                             viols.push(Violation { prop: v.prop.to_string(), sig: format!("{kn}|{}|{fault}", v.clause), detail: format!("after {}: {}", op.brief(), v.detail), at: label });
@@ -1030,7 +1089,14 @@ pub fn run_history(cfg: &HistCfg) -> HistResult {
                 }
             }
         }
-        let stop = !viols.is_empty();
+        // violations of properties this check does not decide end the history silently: the state is no longer one
+        // the property speaks about, and what follows would only be a consequence (their own checks report them)
+        let (own, foreign): (Vec<Violation>, Vec<Violation>) = viols.into_iter().partition(|v| cfg.props.wants(&v.prop));
+        if !foreign.is_empty() {
+            *res.probes.entry("history-ended-by-violation-of-another-property".into()).or_default() += 1;
+        }
+        let viols = own;
+        let stop = !viols.is_empty() || !foreign.is_empty();
         res.violations.extend(viols);
         pre = post;
         if run_over || (stop && cfg.stop_at_first) || ghost_now {
